@@ -258,7 +258,8 @@ class Program:
             self.new_constants = propagate_new_constants({m.name: m.tree for m in self.modules.values()})
             desugar_match({m.name: m.tree for m in self.modules.values()})
             self.inlined, self.not_inlined = inline_new_helpers({m.name: m.tree for m in self.modules.values()})
-            from .normalize import split_tuple_assignments, desugar_namedtuples
+            from .normalize import split_tuple_assignments, desugar_namedtuples, desugar_after_inlining
+            desugar_after_inlining({m.name: m.tree for m in self.modules.values()})
             self.records = desugar_namedtuples({m.name: m.tree for m in self.modules.values()})
             split_tuple_assignments({m.name: m.tree for m in self.modules.values()})
         self.absorbed = {h for _caller, h in self.inlined}       # new helpers whose bodies are analysed at their call sites
